@@ -22,9 +22,8 @@ THEOREMS = ["C03_excitation_formula", "C03_recombination_uses_next_charge", "C03
             "C03_donor_filter_spec", "C03_total_power_formula", "C03_total_power_uniform",
             "C03_radiation_function_total", "C03_brems_formula", "C03_brems_species_filter",
             "C03_brems_bin_average_partial", "C03_zero_when_nonpositive", "C03_nonneg",
-            "C03_thermalcx_nonneg_partial", "C03_thermalcx_negative_donor_refuted", "C03_linear_in_density"]
+            "C03_thermalcx_nonneg", "C03_linear_in_density"]
 
-KEY_NEG_DONOR = "c03:thermalcx-negative-donor-density"
 GL_ORDER = 8
 
 
@@ -73,8 +72,8 @@ def coq_tab(tab):
 # ---------------------------------------------------------------------------------------------------
 # generators
 # ---------------------------------------------------------------------------------------------------
-def gen_density(rng, style, allow_bad=True):
-    r = rng.random()
+def gen_density(rng, style, allow_bad=True, bad=1.0):
+    r = rng.random() / bad if bad > 0 else 1.0
     if allow_bad and r < 0.07:
         return 0.0
     if allow_bad and r < 0.16:
@@ -84,8 +83,8 @@ def gen_density(rng, style, allow_bad=True):
     return 10.0 ** rng.uniform(15, 21)
 
 
-def gen_temperature(rng, style, allow_bad=True):
-    r = rng.random()
+def gen_temperature(rng, style, allow_bad=True, bad=1.0):
+    r = rng.random() / bad if bad > 0 else 1.0
     if allow_bad and r < 0.05:
         return 0.0
     if allow_bad and r < 0.11:
@@ -136,7 +135,7 @@ def gen_line_case(impl, rng, kind, style):
         want.append((e, c + 1) if kind == 1 else (e, c))          # the "other" charge state, so that Z vs Z+1 matters
     comp = gen_comp(impl, rng, style, want, rng.randint(0, 6), 0.08)
     return {"kind": kind, "style": style, "cfg": gen_cfg(rng, style), "line": (e, c, rng.randrange(len(impl.TRANS))),
-            "ne": gen_density(rng, style), "te": gen_temperature(rng, style), "comp": comp}
+            "ne": gen_density(rng, style, bad=0.5), "te": gen_temperature(rng, style, bad=0.5), "comp": comp}
 
 
 def gen_window(rng):
@@ -153,7 +152,7 @@ def gen_total_case(impl, rng, style):
     comp = gen_comp(impl, rng, style, want, rng.randint(0, 4), 0.06)
     minw, maxw, bins = gen_window(rng)
     return {"kind": 4, "style": style, "cfg": gen_cfg(rng, style, total=True), "elem": e, "charge": c,
-            "ne": gen_density(rng, style), "te": gen_temperature(rng, style), "comp": comp,
+            "ne": gen_density(rng, style, bad=0.5), "te": gen_temperature(rng, style, bad=0.5), "comp": comp,
             "minw": minw, "maxw": maxw, "bins": bins}
 
 
@@ -256,8 +255,8 @@ def documented_line(impl, case):
         return ("value", v, abs(v))
     tot, mag = Fraction(0), Fraction(0)
     for (de, dc, nd, td) in case["comp"]:
-        if (de, dc) == (e, tc) or dc >= impl.znum(de):
-            continue
+        if (de, dc) == (e, tc) or dc >= impl.znum(de) or nd <= 0:
+            continue                     # receiver, bare nucleus, or a density the term depends on is non-positive
         term = F(nd) * stub3_exact(impl, g, de, dc, e, tc, t, ne, te, td)
         tot += term
         mag += abs(term)
@@ -316,10 +315,7 @@ def search_line(impl, case, obs):
     if what == "value" and not near(rad, want, mag):
         fails.append({"claim": "radiance equals the documented expression", "observed": rad, "expected": float(want)})
     if case["cfg"]["sgn"] > 0 and rad < 0:
-        e, c, _ = case["line"]
-        fails.append({"claim": "emission is never negative for non-negative coefficients", "observed": rad,
-                      "negative_donor": case["kind"] == 3 and any(
-                          s[2] < 0 and (s[0], s[1]) != (e, c + 1) and s[1] < impl.znum(s[0]) for s in case["comp"])})
+        fails.append({"claim": "emission is never negative for non-negative coefficients", "observed": rad})
     return fails
 
 
@@ -525,9 +521,10 @@ def run(ctx):
         if kind in (1, 2, 3):
             obs = impl.run_line(case)
             e, c, t = case["line"]
-            texts.append("check_line %d %s (mkLine %s %s %s) %s %s %s %s %s %s %s" % (
+            texts.append("check_line %d %s (mkLine %s %s %s) %s %s %s %s %s %s %s %s" % (
                 kind, coq_cfg(case["cfg"]), zlit(e), zlit(c), zlit(t), qz(case["ne"]), qz(case["te"]), coq_comp(impl, case["comp"]),
-                coq_out(obs["out"]), coq_zll(obs["calls"]), coq_qll(obs["evals"]), "[" + "; ".join(zlit(v) for v in obs["target"]) + "]%Z"))
+                coq_out(obs["out"]), coq_zll(obs["calls"]), coq_qll(obs["evals"]), "[" + "; ".join(zlit(v) for v in obs["target"]) + "]%Z",
+                coq_zll(obs["tsamp"])))
             okey = obs["out"][0] if isinstance(obs["out"], tuple) else obs["out"]
             fs = search_line(impl, case, obs)
             if isinstance(obs["out"], tuple) and (ci % (4 if quick else 8) == 0):
@@ -663,16 +660,9 @@ def run(ctx):
     ctx.log("correspondence: %d cases, %d disagree; search: %d failures" % (len(texts), len(diff_cases), len(search_fails)))
 
     # ---- verdicts -------------------------------------------------------------------------------------------
-    neg_donor = [f for f in search_fails if f.get("negative_donor")]
-    other = [f for f in search_fails if not f.get("negative_donor")]
-    ctx.obligation("executable property on the implementation (%d cases + %d sign probes), apart from the thermal-CX donor sign"
+    other = search_fails
+    ctx.obligation("executable property on the implementation (%d cases + %d thermal-CX sign probes)"
                    % (len(cases), n_neg), "search", not other, str(other[:3]))
-    if neg_donor:
-        f = min(neg_donor, key=lambda f: len(f["case"]["comp"]))
-        ctx.violation(KEY_NEG_DONOR,
-                      "ThermalCXLine emission is negative although every coefficient is non-negative: a donor species with a "
-                      "negative density is not skipped (thermal_cx.pyx emission loop has no donor_density <= 0 guard)",
-                      {"case": f["case"], "observed_radiance": f["observed"]}, found=True)
     seen = set()
     for f in other:
         key = "c03:%s:%s" % (names[f["case"]["kind"]], f["claim"][:50])
@@ -707,8 +697,6 @@ def run(ctx):
                       "rtol 1e-5) / 2^-32 (rtol 1e-13) against %d-point Gauss-Legendre of the model evaluated in Coq" % GL_ORDER,
                       "radiation_function": "2^-48", "search": "1e-12 (formulas), 1e-9 (GaussianLine integral), 3e-5 / 1e-9 (bremsstrahlung bins)"},
         "partial": ["integrator and Gaunt factor are oracles (C03_brems_bin_average_partial: exact-integrator hypothesis)",
-                    "thermal CX sign clause holds only for non-negative donor densities (C03_thermalcx_nonneg_partial); the current code "
-                    "violates it for a negative donor density (C03_thermalcx_negative_donor_refuted, known finding %s)" % KEY_NEG_DONOR,
                     "InterpolatedFreeFreeGauntFactor (gaunt.pyx) itself is not modelled: the property only requires that the provider's "
                     "Gaunt factor is the one used, which is observed exactly",
                     "line shapes are an oracle with unit integral (property C02)"],
